@@ -100,25 +100,7 @@ def sign_rules(j, P, s, mode, ob):
     oks = len(sib) >= 1 and all(len(x["items"]) == 1 and x["items"][0]["len"] == [lam4, lam4] and x["items"][0]["src"].endswith(".c_tilde") for x in sib)
     ob(oks, "S5:challenge-from-whole-ctilde:%s" % ent, {"rule": "S5 SampleInBall absorbs the whole c~", "entry": j["root"], "set": s, "sites": [x["rendered"][:120] for x in sib[:3]]})
     # S6
-    se = st.ret_probes(j, "encodings::sig_encode")
-    facts = {}
-    for p in se:
-        for kx, v in st.parse_facts(p["data"].get("facts")).items():
-            if kx in facts:
-                v = (min(v[0], facts[kx][0]), max(v[1], facts[kx][1]))
-            facts[kx] = v
-    norms = {kx: v for kx, v in facts.items() if kx.startswith("sign_internal: helpers::infinity_norm(")}
-    sums = {kx: v for kx, v in facts.items() if kx.startswith("sign_internal: ") and "Iterator::sum" in kx}
-    want = sorted([P["gamma1"] - P["beta"] - 1, P["gamma2"] - P["beta"] - 1, P["gamma2"] - 1])
-    okn = len(se) >= 1 and sorted(v[1] for v in norms.values()) == want and all(v[0] == 0 for v in norms.values())
-    if okn and k != l:
-        zf = [v for kx, v in norms.items() if kx.endswith("#%d)" % l)]
-        okn = len(zf) == 1 and zf[0][1] == P["gamma1"] - P["beta"] - 1
-    ob(okn, "S6:emit-norm-bounds:%s" % ent, {"rule": "S6 a signature is emitted only when ||z|| < gamma1-beta, ||r0|| < gamma2-beta, ||ct0|| < gamma2, with exactly these thresholds",
-                                              "entry": j["root"], "set": s, "path_condition_at_sigEncode": {kx: list(v) for kx, v in norms.items()}, "expected_upper_bounds": want})
-    oksum = len(sums) == 1 and list(sums.values())[0][1] == P["omega"]
-    ob(oksum, "S6:emit-hint-weight:%s" % ent, {"rule": "S6 a signature is emitted only when the hint has at most omega ones, with exactly this threshold", "entry": j["root"], "set": s,
-                                                "path_condition_at_sigEncode": {kx: list(v) for kx, v in sums.items()}, "omega": P["omega"]})
+    norms, sums = st.emit_condition(j, P, s, ent, ob, "S6")
     return {"set": s, "mode": mode, "kappa": kap[:6], "emit_condition": {kx.split(": ", 1)[1]: list(v) for kx, v in list(norms.items()) + list(sums.items())}}
 
 
